@@ -20,7 +20,8 @@ Builtin == <<[name |-> "b1", plugin |-> B1], [name |-> "b2", plugin |-> B2]>>
 \* raw names as given by the caller and their lower-case form
 Adds == {[op |-> "add", m |-> m, raw |-> a[1], p |-> a[2], prio |-> pr] :
            m \in 1..2, a \in {<<"x", 1>>, <<"X", 2>>, <<"y", 2>>, <<"z", 3>>}, pr \in BOOLEAN}
-Reqs == {<<"", "a">>, <<"", "b">>, <<"", "c">>, <<"", "s">>, <<"X", "a">>, <<"x", "c">>, <<"y", "b">>, <<"z", "a">>,
+\* ("d" stands for the literal method name "default")
+Reqs == {<<"", "a">>, <<"", "b">>, <<"", "c">>, <<"", "s">>, <<"", "d">>, <<"X", "a">>, <<"x", "c">>, <<"y", "b">>, <<"z", "a">>,
          <<"b2", "s">>, <<"b2", "t">>, <<"q", "a">>}
 Gets == {[op |-> "get", m |-> m, plug |-> r[1], meth |-> r[2]] : m \in 1..2, r \in Reqs}
 Sups == {[op |-> "sup", m |-> m, plug |-> r[1], meth |-> r[2]] : m \in {1}, r \in {<<"", "a">>, <<"", "c">>, <<"z", "c">>, <<"x", "b">>}}
